@@ -237,6 +237,8 @@ def run_for(ctx, pid):
         gc.coq_spec_check(ctx, res)
     if pid == "C11":
         gc.coq_spec_check(ctx, res, what="wildcards")
+    if pid == "C05":
+        gc.coq_spec_check(ctx, res, what="verdict")
     evaluate(ctx, pid, res)
 
 
@@ -250,6 +252,8 @@ def replay_for(ctx, pid, data):
         gc.coq_spec_check(ctx, res)
     if pid == "C11":
         gc.coq_spec_check(ctx, res, what="wildcards")
+    if pid == "C05":
+        gc.coq_spec_check(ctx, res, what="verdict")
     evaluate(ctx, pid, res)
     print(json.dumps(d["model"]))
     for (o, a, b) in res[0]["ordered"]:
